@@ -15,6 +15,7 @@ type C15Case struct {
 	SrcLen   int    `json:"srclen"`
 	SrcFIFO  bool   `json:"srcfifo"`
 	SrcNils  bool   `json:"srcnils"`  // every third source element (from index 1) is nil
+	SrcWeird int    `json:"srcweird,omitempty"` // 1+index of a source element that is a typed nil pointer (depth 1..3) or a pointer to one; 0 none
 	SrcMutex bool   `json:"srcmutex,omitempty"` // the source has SetMutex(): a lock taken on it must be released on every path
 	SrcStack int    `json:"srcstack"` // index of a nested Stack element in the source, -1 = none
 	DstKind  string `json:"dstkind"`
@@ -26,7 +27,7 @@ type C15Case struct {
 	DstPrep  string `json:"dstprep,omitempty"` // history of the destination before the transfer: "" (constructor+Push) | reset | remove | insertfront | popfifo
 }
 
-var c15Forms = []string{"native", "alias", "ptrstack", "ptralias", "readonly", "readonly-alias", "readonly-ptrstack", "readonly-ptralias", "zero", "zeroalias", "nil", "typednil", "int", "string", "cond"}
+var c15Forms = []string{"native", "alias", "ptrstack", "ptralias", "readonly", "readonly-alias", "readonly-ptrstack", "readonly-ptralias", "zero", "zeroalias", "nil", "typednil", "typednil2", "typednil2alias", "typednil3int", "ptr-to-nilptr", "ptr2-to-nilptr2", "int", "string", "cond"}
 
 func runC15(c C15Case) (st Stats, err error) {
 	var src, dst stackage.Stack
@@ -50,6 +51,9 @@ func runC15(c C15Case) (st Stats, err error) {
 			}
 			if i == c.SrcStack {
 				v = stackage.Or().Push("nested")
+			}
+			if i == c.SrcWeird-1 {
+				v = weirdPointer(i)
 			}
 			srcVals = append(srcVals, v)
 			src.Push(v)
@@ -133,6 +137,18 @@ func runC15(c C15Case) (st Stats, err error) {
 			dstArg = nil
 		case "typednil":
 			dstArg = (*stackage.Stack)(nil)
+		case "typednil2":
+			dstArg = (**stackage.Stack)(nil)
+		case "typednil2alias":
+			dstArg = (**MyStack)(nil)
+		case "typednil3int":
+			dstArg = (***int)(nil)
+		case "ptr-to-nilptr":
+			var p *stackage.Stack
+			dstArg = &p
+		case "ptr2-to-nilptr2":
+			var p **stackage.Stack
+			dstArg = &p
 		case "int":
 			dstArg = 5
 		case "string":
@@ -264,6 +280,25 @@ func runC15(c C15Case) (st Stats, err error) {
 	return st, nil
 }
 
+// weirdPointer: pointer-typed values that are not Stacks: typed nils of depth 1..3 and live pointers to nil pointers.
+func weirdPointer(i int) any {
+	switch i % 6 {
+	case 0:
+		return (*int)(nil)
+	case 1:
+		return (**int)(nil)
+	case 2:
+		return (***string)(nil)
+	case 3:
+		return (**stackage.Stack)(nil)
+	case 4:
+		var p *int
+		return &p
+	}
+	var p **MyStack
+	return &p
+}
+
 func enumC15(tier Tier, yield func(C15Case)) {
 	for srcLen := 0; srcLen <= 6; srcLen++ {
 		for dstLen := 0; dstLen <= 6; dstLen++ {
@@ -293,6 +328,14 @@ func enumC15(tier Tier, yield func(C15Case)) {
 						yield(c)
 						c.SrcStack = -1
 						yield(c)
+						if srcLen > 0 {
+							// pointer-typed non-Stack source elements against the no-nesting filter and a plain destination
+							c.SrcWeird = 1 + (srcLen+dstLen+capExtra+1)%srcLen
+							yield(c)
+							c.Opt = "plain"
+							yield(c)
+							c.SrcWeird = 0
+						}
 						c.Opt = "policy"
 						c.Reject = srcLen / 2
 						yield(c)
@@ -325,7 +368,7 @@ func genC15(t *rapid.T, tier Tier) C15Case {
 		DstLen:  genLenWithBulk(t, "dstlen", maxLen),
 		SrcFIFO: rapid.Bool().Draw(t, "fifo"),
 		SrcNils: rapid.Bool().Draw(t, "nils"),
-		Form:    rapid.SampledFrom([]string{"native", "native", "native", "alias", "ptrstack", "ptralias", "readonly", "readonly-alias", "readonly-ptrstack", "readonly-ptralias", "zero", "zeroalias", "nil", "typednil", "int", "string", "cond"}).Draw(t, "form"),
+		Form:    rapid.SampledFrom([]string{"native", "native", "native", "alias", "ptrstack", "ptralias", "readonly", "readonly-alias", "readonly-ptrstack", "readonly-ptralias", "zero", "zeroalias", "nil", "typednil", "typednil2", "typednil2alias", "typednil3int", "ptr-to-nilptr", "ptr2-to-nilptr2", "int", "string", "cond"}).Draw(t, "form"),
 		Opt:     rapid.SampledFrom([]string{"plain", "plain", "nonest", "policy"}).Draw(t, "opt"),
 	}
 	c.SrcStack = -1
@@ -343,6 +386,12 @@ func genC15(t *rapid.T, tier Tier) C15Case {
 	c.Reject = rapid.IntRange(0, max(maxLen, c.SrcLen)+1).Draw(t, "reject")
 	c.DstPrep = rapid.SampledFrom([]string{"", "", "reset", "remove", "insertfront", "popfifo"}).Draw(t, "dstprep")
 	c.SrcMutex = rapid.Bool().Draw(t, "srcmutex")
+	if c.SrcLen > 0 && rapid.IntRange(0, 4).Draw(t, "weird?") == 0 {
+		c.SrcWeird = 1 + rapid.IntRange(0, c.SrcLen-1).Draw(t, "weirdat")
+		if c.SrcWeird-1 == c.SrcStack {
+			c.SrcWeird = 0
+		}
+	}
 	return c
 }
 
